@@ -24,9 +24,9 @@ type Case struct {
 	// summaries are computed right afterwards: a summary is a function of (sample, level).
 	Confidence2 float64
 	Alpha       float64
-	Assume     string // "nothing" | "exact" | "normal"
-	Shuffle    []int  // drives a reordering of the samples
-	ScaleExp   int    // common rescaling by 2^ScaleExp
+	Assume      string // "nothing" | "exact" | "normal"
+	Shuffle     []int  // drives a reordering of the samples
+	ScaleExp    int    // common rescaling by 2^ScaleExp
 }
 
 func assumption(name string) benchmath.Assumption {
